@@ -305,9 +305,15 @@ def assign_targets(X, ast, ev):
             return [(('g', ev.pkg, nm), None)]
         if name == 'ghost':
             nm = args[0][1]
+            found = []
             for key in list(X.V.h0.keys()) + list(ev.heap.d.keys()):
-                if key[0] == 'ghost' and key[1] == nm:
-                    return [(key, None)]
+                if key[0] == 'ghost' and key[1] == nm and key not in found:
+                    found.append(key)
+            if not found:
+                from .externals import bs_keys
+                found = [k_ for k_ in bs_keys() if k_[1] == nm]
+            if found:
+                return [(key, None) for key in found]
             return [(('ghost', nm, z3.IntSort()), None)]
         if name == 'allfields':
             ty = resolve_type(w, args[0][1], ev.pkg)
